@@ -150,13 +150,16 @@ def _sql_s1(program, res, dialect: sqlexpr.Dialect, rows, registered, tmeth):
                          f"{inst} resolves to a formatter entry `{unparse(info[1])}` that is not a function", dialect.module.relpath, 0)
             else:
                 probs = _template_vocab_problems(fn, dialect, vocab)
-                cav = facts.SQL_TEMPLATE_CAVEATS.get((model, op))
-                if cav is not None and not probs:
+                cavs = facts.SQL_TEMPLATE_CAVEATS.get((model, op))
+                if cavs is not None and not probs:
                     import re as _re
+                    if isinstance(cavs, tuple):
+                        cavs = [cavs]
                     for t_ in sqlexpr.fold_function(fn):
                         text_ = sqlexpr.render(t_)
-                        if _re.search(cav[0], text_) and not _re.search(cav[1], text_):
-                            probs = [(f"{op}:form", cav[2], text_)]
+                        for cav in cavs:
+                            if not probs and _re.search(cav[0], text_) and not _re.search(cav[1], text_):
+                                probs = [(f"{op}:form", cav[2], text_)]
                 if probs:
                     res.fail("C05-S1", f"{info[0].name}:{getattr(fn, 'name', 'lambda')}", f"catalog:{op}:template:{probs[0][0]}",
                              f"{inst} is formatted by {getattr(fn, 'name', 'lambda')} into `{probs[0][2][:80]}`; {probs[0][1]}",
